@@ -228,7 +228,7 @@ class Run:
                         net.t[side].permit(rng.choice([1, 2, 5]))
                     net.loop.settle()
                 net.flush(rng)
-                if net.lease is not None and net.ep['client']._request_queue.qsize():
+                if net.lease is not None and len(getattr(net.ep['client']._request_queue, '_queue', net.ep['client']._request_queue)):
                     self.grant(rng.choice([1, 2, 1000]))
                     continue
                 moved = False
